@@ -4,7 +4,7 @@
    string literals are read by SDAI_String::STEPread (coq/P21Str.v), comments are skipped.
    No proofs here; extracted for the correspondence check. *)
 From Coq Require Import List ZArith Bool NArith.
-From SC Require Import P21Lex P21Str P21Scan.
+From SC Require Import P21Lex P21Str P21Sep.
 Import ListNotations.
 Local Open Scope N_scope.
 
